@@ -18,9 +18,11 @@ import (
 	"iter"
 	"math/bits"
 	"math/rand"
+	"os"
 	"path/filepath"
 	"slices"
 	"sort"
+	"strings"
 	"sync"
 	"testing"
 
@@ -50,6 +52,9 @@ type Case struct {
 	SPN int `json:"base_sections_per_node,omitempty"`
 	// Tenants observed; empty = one tenant per matcher branch (a, ab, b1, other, "").
 	Tenants []string `json:"tenants,omitempty"`
+	// Reps > 0 (third family): a tenant that more than one override matches is computed Reps more times uncached on
+	// the same ring, Reps times after eviction from the cache (cache size 1) and once on each of Reps further rings.
+	Reps int `json:"reps,omitempty"`
 }
 
 var tenants = []string{"a", "ab", "b1", "other", ""}
@@ -103,10 +108,13 @@ func (c Case) config() []receive.HashringConfig {
 	return []receive.HashringConfig{{Hashring: "h", Endpoints: c.endpoints(), ShuffleShardingConfig: sc}}
 }
 
-// configuredSizes: the shard sizes the configuration gives the tenant: those of every override that names it
-// (exact membership; matcher type left out = exact, as documented; glob = filepath.Match), else the default.
-// With several matching overrides any of their sizes is accepted (precedence is not documented).
-func (c Case) configuredSizes(tenant string) (sizes []int, viaDefaultMatcher bool) {
+// configured: the shard sizes of the overrides that name the tenant, in the order of the configuration (exact
+// membership; matcher type left out = exact, as documented; glob = filepath.Match, a malformed pattern matches
+// nothing), else the default. The first one is the configured size: the overrides are an ordered list and the first
+// override that matches the tenant applies. firstViaDefault: that override leaves the matcher type out. matches: the
+// number of overrides that match; from: where the sizes come from, in words.
+func (c Case) configured(tenant string) (sizes []int, firstViaDefault bool, matches int, from string) {
+	from = "shard sizes of the overrides that match the tenant, in the order of the configuration"
 	for _, o := range c.Overrides {
 		hit := false
 		switch o.Matcher {
@@ -120,14 +128,15 @@ func (c Case) configuredSizes(tenant string) (sizes []int, viaDefaultMatcher boo
 			hit = slices.Contains(o.Tenants, tenant)
 		}
 		if hit {
-			sizes = append(sizes, o.Size)
-			if o.Matcher == "" {
-				viaDefaultMatcher = true
+			if len(sizes) == 0 && o.Matcher == "" {
+				firstViaDefault = true
 			}
+			sizes = append(sizes, o.Size)
 		}
 	}
-	if len(sizes) == 0 {
-		sizes = []int{c.ShardSize}
+	matches = len(sizes)
+	if matches == 0 {
+		sizes, from = []int{c.ShardSize}, "the default: no override matches the tenant"
 	}
 	return
 }
@@ -258,6 +267,133 @@ func genSmall(minN, maxN, maxRF int, spns []int, nTenants int, allZAD bool) iter
 	}
 }
 
+// ---- third family: overlapping overrides
+
+type layout struct {
+	zones []int
+	zad   bool
+	spns  []int // base ring sections per node; 0 = production ring through NewMultiHashring
+}
+
+func ovG(size int, pats ...string) Override {
+	return Override{Matcher: "glob", Tenants: pats, Size: size}
+}
+func ovE(size int, ts ...string) Override { return Override{Matcher: "exact", Tenants: ts, Size: size} }
+func ovD(size int, ts ...string) Override { return Override{Matcher: "", Tenants: ts, Size: size} }
+
+// overlapLists: override lists in which at least one of the tenants a, ab matches two or three overrides. S: three
+// shard sizes that give different results (the last one no shard); lo: a size every zone can provide (for the catch-all pattern, which also
+// matches the tenant used to evict the cache entry). allPairs=false: the two glob-glob lists get every ordered pair
+// of sizes, the other lists (S[0], S[1]), (S[0], S[2]) and (S[2], S[0]).
+func overlapLists(S [3]int, lo int, allPairs bool) [][]Override {
+	var out [][]Override
+	for i := 0; i < 3; i++ {
+		for j := 0; j < 3; j++ {
+			if i == j {
+				continue
+			}
+			p, q := S[i], S[j]
+			out = append(out,
+				[]Override{ovG(p, "ab*"), ovG(q, "a*")}, // specific before general
+				[]Override{ovG(p, "a*"), ovG(q, "ab*")}, // general before specific
+			)
+			if !allPairs && !(i == 0 || i == 2 && j == 0) {
+				continue
+			}
+			out = append(out,
+				[]Override{ovG(p, "a*"), ovG(q, "a*")},             // the same pattern twice
+				[]Override{ovG(p, "a*", "?b"), ovG(q, "*b", "a?")}, // two matching patterns in each
+				[]Override{ovG(p, "a*"), ovE(q, "ab")},             // exact entry after a matching glob
+				[]Override{ovE(p, "ab"), ovG(q, "a*")},             // and before it
+				[]Override{ovG(p, "a*"), ovD(q, "ab")},             // the same with the matcher type left out
+				[]Override{ovD(p, "ab"), ovG(q, "a*")},
+				[]Override{ovE(p, "a"), ovE(q, "a")},             // the same exact entry twice
+				[]Override{ovE(p, "a", "ab"), ovD(q, "ab", "a")}, // exact and matcher type left out
+				[]Override{ovG(p, "[", "a*"), ovG(q, "a?")},      // malformed pattern next to the matching one
+				[]Override{ovG(p, "a?"), ovG(q, "[", "a*")},
+			)
+		}
+	}
+	three := []Override{ovG(S[0], "a*"), ovG(S[1], "*b"), ovG(S[2], "??")} // ab matches all, a and b1 one each
+	for _, pm := range [][3]int{{0, 1, 2}, {0, 2, 1}, {1, 0, 2}, {1, 2, 0}, {2, 0, 1}, {2, 1, 0}} {
+		out = append(out, []Override{three[pm[0]], three[pm[1]], three[pm[2]]})
+	}
+	out = append(out,
+		[]Override{ovG(S[1], "a*"), ovE(S[2], "ab"), ovG(lo, "*")}, // catch-all last, first, in the middle
+		[]Override{ovG(lo, "*"), ovE(S[2], "ab"), ovG(S[1], "a*")},
+		[]Override{ovE(S[2], "ab"), ovG(lo, "*"), ovG(S[1], "a*")},
+	)
+	return out
+}
+
+var overlapTenants = []string{"ab", "a", "b1", ""}
+
+// evictor: the tenant served in between to push the observed tenant out of a cache of one entry. Of the patterns
+// above only the catch-all matches it.
+const evictor = "evictor"
+
+// genOverlap: third family, one tenant per case. Shard sizes: z and 2z (z = zones, 1 without zone awareness) and
+// n+1, which no layout can provide. A sub-ring costs ~1 ms to build (1000 sections per node), an error nothing:
+// tenants whose configured size is n+1 (every computation must fail; a computation that follows a later override
+// instead returns a shard) are repeated deep times on the cheap small base rings, all others reps times.
+// wide=false: per override list the tenants that several overrides match and one that exactly one matches (tenants
+// no override matches get the default size: first family).
+func genOverlap(layouts []layout, maxRF int, caches []int, reps, deep int, allPairs, wide bool) iter.Seq[Case] {
+	return func(yield func(Case) bool) {
+		for _, l := range layouts {
+			u, n := len(l.zones), 0
+			if l.zad {
+				u = 1
+			}
+			for _, z := range l.zones {
+				n += z
+			}
+			S := [3]int{u, 2 * u, n + 1}
+			for rf := 1; rf <= maxRF; rf++ {
+				probe := Case{Zones: l.zones, ZAD: l.zad, RF: rf}
+				var sat []int
+				for _, s := range []int{u, 2 * u, 3 * u} {
+					if _, ok := probe.perZone(s); ok {
+						sat = append(sat, s)
+					}
+				}
+				if _, ok := probe.perZone(S[2]); ok || len(sat) < 2 {
+					panic("HARNESS-ERROR overlap family: layout without two providable sizes and one that cannot be provided")
+				}
+				for _, ov := range overlapLists(S, sat[0], allPairs) {
+					// default size: one the layout can provide (the evictor needs a shard) other than the first override's
+					def := sat[0]
+					if def == ov[0].Size {
+						def = sat[1]
+					}
+					var tns []string
+					single := false
+					for _, tn := range overlapTenants {
+						_, _, m, _ := Case{Overrides: ov}.configured(tn)
+						if wide || m >= 2 || m == 1 && !single {
+							tns = append(tns, tn)
+							single = single || m == 1
+						}
+					}
+					for _, cs := range caches {
+						for _, spn := range l.spns {
+							for _, tn := range tns {
+								c := Case{Zones: l.zones, ShardSize: def, Overrides: ov, ZAD: l.zad, RF: rf, CacheSize: cs, SPN: spn, Tenants: []string{tn}, Reps: reps}
+								if sizes, _, _, _ := c.configured(tn); spn > 0 && sizes[0] == S[2] {
+									c.Reps = deep
+								}
+								if !yield(c) {
+									return
+								}
+							}
+						}
+					}
+				}
+			}
+		}
+	}
+}
+
 func series(i int) *prompb.TimeSeries {
 	return &prompb.TimeSeries{Labels: []labelpb.ZLabel{{Name: "__name__", Value: "m"}, {Name: "i", Value: fmt.Sprint(i)}}}
 }
@@ -265,15 +401,20 @@ func series(i int) *prompb.TimeSeries {
 // obs is one observation of a tenant's shard: a node set (bitmask) or an error.
 type obs struct {
 	how string
+	i   int // repetition (third family), 0 = none
 	set uint64
 	err string
 }
 
 func (o obs) String() string {
-	if o.err != "" {
-		return fmt.Sprintf("%s: error %q", o.how, o.err)
+	how := o.how
+	if o.i > 0 {
+		how = fmt.Sprintf("%s (repetition %d)", o.how, o.i)
 	}
-	return fmt.Sprintf("%s: nodes %b", o.how, o.set)
+	if o.err != "" {
+		return fmt.Sprintf("%s: error %q", how, o.err)
+	}
+	return fmt.Sprintf("%s: nodes %b", how, o.set)
 }
 
 type checker struct {
@@ -367,7 +508,16 @@ func (k *checker) eval(c Case) {
 		return
 	}
 	r.Sample(c)
+	defer func() {
+		if p := recover(); p != nil {
+			if s, ok := p.(string); ok && strings.HasPrefix(s, "HARNESS-ERROR") {
+				panic(p)
+			}
+			r.Violation("panic-in-code-under-test", fmt.Sprintf("tenants %q: panic: %v", c.Tenants, p), c)
+		}
+	}()
 	small := c.SPN > 0
+	overlap := c.Reps > 0
 	eps := c.endpoints()
 	ix := map[receive.Endpoint]int{}
 	for i, e := range eps {
@@ -423,7 +573,7 @@ func (k *checker) eval(c Case) {
 		return obs{how: how, set: s}
 	}
 	var secs []receive.VerifC21Section
-	if small {
+	if small && !overlap {
 		var err error
 		if secs, err = receive.VerifC21BaseSections(A); err != nil || len(secs) != c.n()*c.SPN {
 			panic(fmt.Sprintf("HARNESS-ERROR base ring sections: %v (%d)", err, len(secs)))
@@ -435,10 +585,14 @@ func (k *checker) eval(c Case) {
 	}
 	// with a cache of one entry the observation after another tenant was served is a second computation on the
 	// same instance anyway
-	again := !small && c.CacheSize != 1
+	again := (!small || overlap) && c.CacheSize != 1
 	nSeries := 24
 	if small {
 		nSeries = 8
+	}
+	other := "evict-"
+	if overlap {
+		other = evictor
 	}
 
 	for _, tn := range tns {
@@ -466,12 +620,57 @@ func (k *checker) eval(c Case) {
 			}
 		}
 		seen = append(seen, shard(A, "cached after GetN", tn, true))
-		if !small {
+		if !small || overlap {
 			// another tenant in between: with cache size 1 it evicts the entry
-			_, _ = A.GetN("evict-"+tn, series(0), 0)
+			if !overlap {
+				other = "evict-" + tn
+			}
+			_, _ = A.GetN(other, series(0), 0)
 			seen = append(seen, shard(A, "cached after another tenant was served", tn, true))
 		}
 		seen = append(seen, shard(B, "computed on a second instance of the same configuration", tn, false))
+		sizes, viaDefault, matches, from := c.configured(tn)
+		if overlap && matches >= 2 {
+			// several overrides match: whatever decides between them must decide the same way every time
+			reps := c.Reps
+			if seen[0].err == "" && reps > 64 {
+				// deep repetition is for computations that fail (free); a shard costs ~1 ms to build
+				reps = 64
+			}
+			same := func(o obs) bool { return (o.err == "") == (seen[0].err == "") && o.set == seen[0].set }
+			more := func(how string, i int, h receive.Hashring, cached bool) bool {
+				o := shard(h, how, tn, cached)
+				o.i = i
+				seen = append(seen, o)
+				return same(o)
+			}
+			ok := true
+			for i := 1; ok && i <= reps; i++ {
+				ok = more("computed again", i, A, false)
+			}
+			if c.CacheSize == 1 {
+				evicted, rounds := 0, 0
+				for i := 1; ok && i <= reps; i++ {
+					rounds++
+					if _, err := A.GetN(other, series(0), 0); err == nil {
+						evicted++
+					}
+					ok = more("read through the cache of one entry after another tenant was served", i, A, true)
+				}
+				r.Add("overlap_recomputations_after_eviction", int64(evicted))
+				r.Add("overlap_eviction_rounds_in_which_the_other_tenant_got_no_shard", int64(rounds-evicted))
+			}
+			for i := 1; ok && i <= reps; i++ {
+				X := mk()
+				if X == nil {
+					r.Violation("configuration-rejected-on-a-further-instance", fmt.Sprintf("tenant %q: two rings were built from the configuration, building it again (repetition %d) failed", tn, i), c)
+					return
+				}
+				ok = more("computed on a further instance of the same configuration", i, X, false)
+				X.Close()
+			}
+			r.Add("overlap_tenant_observations", int64(len(seen)))
+		}
 
 		first := seen[0]
 		for _, o := range seen[1:] {
@@ -480,25 +679,50 @@ func (k *checker) eval(c Case) {
 				return
 			}
 		}
-		sizes, viaDefault := c.configuredSizes(tn)
+		// the configured size: that of the first override that matches
+		exp := sizes[0]
+		const laterSig = "shard-size-of-a-later-matching-override"
+		// what a shard of that size looks like: no shard at all (-1) or the number of nodes per zone / in total
+		look := func(size int) int {
+			take, ok := c.perZone(size)
+			if !ok {
+				return -1
+			}
+			return take
+		}
+		laterDiffers := false
+		for _, s := range sizes[1:] {
+			if look(s) != look(exp) {
+				laterDiffers = true
+			}
+		}
+		if overlap && laterDiffers {
+			r.Nontrivial(fmt.Sprint(c, tn))
+			r.Add("nontrivial_overlapping_overrides", 1)
+			r.Add(fmt.Sprintf("nontrivial_overlapping_overrides_repeated_%d_times_per_path", c.Reps), 1)
+		}
 		if first.err != "" {
 			if first.err[0] == '!' {
 				r.Violation("shard-nodes-not-distinct-configured-endpoints", fmt.Sprintf("tenant %q: %s", tn, first.err[1:]), c)
 				return
 			}
-			anyUnsat := false
-			for _, s := range sizes {
-				if _, ok := c.perZone(s); !ok {
-					anyUnsat = true
+			if look(exp) >= 0 {
+				// an error although the layout can provide the configured size
+				laterUnsat := false
+				for _, s := range sizes[1:] {
+					if look(s) < 0 {
+						laterUnsat = true
+					}
 				}
-			}
-			if _, defOK := c.perZone(c.ShardSize); !anyUnsat && viaDefault && !defOK {
-				// the error is the one the default size produces: the override was not applied
-				r.Violation("override-without-matcher-type-not-applied", fmt.Sprintf("tenant %q: configured shard size %v through an override without tenant_matcher_type, but the error of the default size %d is returned: %s", tn, sizes, c.ShardSize, first.err), c)
-				return
-			}
-			if !anyUnsat {
-				r.Violation("satisfiable-shard-size-rejected", fmt.Sprintf("tenant %q (configured shard size %v, zones %v, RF %d, zone awareness disabled=%v, %s): %s", tn, sizes, c.Zones, c.RF, c.ZAD, c.base(), first.err), c)
+				switch {
+				case viaDefault && !laterUnsat && look(c.ShardSize) < 0:
+					// the error is the one the default size produces: the override was not applied
+					r.Violation("override-without-matcher-type-not-applied", fmt.Sprintf("tenant %q: configured shard size %d through an override without tenant_matcher_type, but the error of the default size %d is returned: %s", tn, exp, c.ShardSize, first.err), c)
+				case laterUnsat:
+					r.Violation(laterSig, fmt.Sprintf("tenant %q: the overrides that match it have shard sizes %v in the order of the configuration (zones %v, RF %d, zone awareness disabled=%v, %s); the first one can be provided, but: %s", tn, sizes, c.Zones, c.RF, c.ZAD, c.base(), first.err), c)
+				default:
+					r.Violation("satisfiable-shard-size-rejected", fmt.Sprintf("tenant %q (configured shard size %d, zones %v, RF %d, zone awareness disabled=%v, %s): %s", tn, exp, c.Zones, c.RF, c.ZAD, c.base(), first.err), c)
+				}
 				return
 			}
 			if getnErr == "" {
@@ -514,28 +738,31 @@ func (k *checker) eval(c Case) {
 			cnt[zoneOf[bits.TrailingZeros64(m)]]++
 		}
 		total := bits.OnesCount64(first.set)
-		okSize := false
-		for _, s := range sizes {
-			take, _ := c.perZone(s)
-			good := true
+		has := func(size int) bool {
+			take, _ := c.perZone(size)
 			if c.ZAD {
-				good = total == take
-			} else {
-				for zi := range c.Zones {
-					if cnt[zi] != take {
-						good = false
-					}
+				return total == take
+			}
+			for zi := range c.Zones {
+				if cnt[zi] != take {
+					return false
 				}
 			}
-			okSize = okSize || good
+			return true
 		}
-		if !okSize {
+		if !has(exp) {
 			sig := "shard-has-wrong-number-of-nodes"
 			if viaDefault {
 				sig = "override-without-matcher-type-not-applied"
+			} else {
+				for _, s := range sizes[1:] {
+					if has(s) {
+						sig = laterSig
+					}
+				}
 			}
-			r.Violation(sig, fmt.Sprintf("tenant %q: configured shard size %v (default %d), zones %v, zone awareness disabled=%v, %s, but the sub-ring has per-zone node counts %v (total %d)",
-				tn, sizes, c.ShardSize, c.Zones, c.ZAD, c.base(), cnt[:len(c.Zones)], total), c)
+			r.Violation(sig, fmt.Sprintf("tenant %q: configured shard size %d (%s: %v; default %d), zones %v, zone awareness disabled=%v, %s, but the sub-ring has per-zone node counts %v (total %d)",
+				tn, exp, from, sizes, c.ShardSize, c.Zones, c.ZAD, c.base(), cnt[:len(c.Zones)], total), c)
 			return
 		}
 		// ---- replicas inside the set
@@ -548,6 +775,9 @@ func (k *checker) eval(c Case) {
 			return
 		}
 		r.Outcome(fmt.Sprintf("shard of %d nodes", total))
+		if overlap {
+			continue
+		}
 		if !small {
 			if total < c.n() {
 				r.Nontrivial(fmt.Sprint(c, tn))
@@ -595,25 +825,69 @@ func TestCheck(t *testing.T) {
 	spns := []int{1, 2, 3}
 	nTen := vlib.Pick(r, 40, 200)
 	allZAD := r.Thorough()
+	oLayouts := []layout{{[]int{3}, false, []int{0, 3}}, {[]int{2, 2}, false, []int{3}}, {[]int{1, 2}, true, []int{3}}}
+	if r.Thorough() {
+		both := []int{0, 3}
+		oLayouts = []layout{{[]int{3}, false, both}, {[]int{2, 2}, false, both}, {[]int{1, 2}, true, both},
+			{[]int{3, 3}, false, both}, {[]int{2, 3, 3}, false, both}, {[]int{2, 2}, true, both}}
+	}
+	oMaxRF := vlib.Pick(r, 1, 2)
+	oCaches := []int{1}
+	oReps := vlib.Pick(r, 4, 64)
+	oDeep := 320
+	oAllPairs := r.Thorough()
+	var oDesc []string
+	for _, l := range oLayouts {
+		oDesc = append(oDesc, fmt.Sprintf("%v zone-aware=%v base ring sections per node %v", l.zones, !l.zad, l.spns))
+	}
 	r.Rule(fmt.Sprintf("(1) production ring: every multiset of <= 3 zone sizes with %d..%d nodes x default shard size 1..n x 16 override lists (none; exact / glob / matcher type left out / glob with bad pattern + exact / overlapping exact + glob, "+
 		"override sizes from {1, n, n+1}) x zone awareness on/off x RF 1..%d x cache sizes %v; per configuration one tenant per way the override list can treat it (of %q), each observed 4 times with a cache of one entry (computed, cached after GetN, after another tenant was served = evicted and recomputed, on a second instance; once more with the default cache) and 24 series through GetN. "+
 		"Non-trivial = (configuration, tenant) pairs whose shard is a proper subset of the nodes. "+
 		"(2) positions of the draws: the same ring over a base ketama ring with %v sections per node: every multiset of <= 3 zone sizes with %d..%d nodes x shard size 1..n (zone-aware: one size per distinct per-zone take, up to take = zone size) x zone awareness on/off x RF 1..%d x tenants t0..t%d, "+
 		"each observed 3 times (computed, cached after GetN, second instance) and 8 series through GetN. Non-trivial = (configuration, tenant) pairs in which a draw landed after the last section of every not yet selected node of its zone "+
-		"(positions replayed in the harness from the base ring's sections; extras give the split and the covered (zone, draw index, gap) combinations)",
-		minN, maxN, maxRF, caches, tenants, spns, minN, sMaxN, sMaxRF, nTen-1))
-	r.Assume("configured number per zone = ceil(shard_size / zones) (docs: shard_size/number_of_azs chosen from each availability zone); an override applies to a tenant when it lists it (matcher exact or left out, documented default) or a glob pattern matches it; if several overrides match, any of their sizes is accepted",
+		"(positions replayed in the harness from the base ring's sections; extras give the split and the covered (zone, draw index, gap) combinations). "+
+		"(3) overlapping overrides: layouts %v (0 sections = production ring through NewMultiHashring) x three shard sizes z, 2z (z = zones, 1 without zone awareness) and n+1 (no shard) x override lists in which two or three overrides match the same tenant with different sizes "+
+		"(glob ab* before / after glob a*; the same glob twice; two matching patterns in each of two globs; exact entry before / after a matching glob, also with the matcher type left out; the same exact entry twice; exact + matcher type left out; a malformed pattern next to the matching one; "+
+		"all 6 orders of three overlapping globs a*, *b, ??; a catch-all * first / in the middle / last; sizes: every ordered pair for the two ab*/a* lists, all=%v for the others (else (z, 2z), (z, n+1), (n+1, z))) x RF 1..%d x cache size %v, default size = a providable size other than the first override's, "+
+		"tenants of %q one per case (quick: those that several overrides match and one that exactly one matches); a tenant that several overrides match is, beyond the 5 observations of (1), computed R more times uncached on the same ring, read R times through the cache of one entry after the tenant %q evicted it, and computed once on each of R further ring instances, R = %d, and R = %d where the configured size is n+1 and the base ring small (every computation must fail, which costs nothing; one that follows a later override returns a shard). "+
+		"Non-trivial = (configuration, tenant) pairs where a later matching override would give a different number of nodes per zone (or no shard) than the first",
+		minN, maxN, maxRF, caches, tenants, spns, minN, sMaxN, sMaxRF, nTen-1,
+		oDesc, oAllPairs, oMaxRF, oCaches, overlapTenants, evictor, oReps, oDeep))
+	r.Assume("configured number per zone = ceil(shard_size / zones) (docs: shard_size/number_of_azs chosen from each availability zone); an override applies to a tenant when it lists it (matcher exact or left out, documented default) or a glob pattern matches it (filepath.Match; a malformed pattern matches nothing); the overrides are an ordered list: if several match, the first one configures the size (what getShardSize documents by returning at the first match; a size of a later matching override is reported as shard-size-of-a-later-matching-override)",
+		"a choice that depends on Go's map iteration order is random per range statement, so family (3) repeats every computation R times per path (see rule). If a computation deviates with probability d, a (configuration, tenant) pair escapes with probability (1-d)^(3R+4) when the choice is made per computation and (1-d)^(R+2) when it is made once per ring instance. A uniform choice among k >= 2 candidates has d >= 1/2; a Go 1.26 map of two entries starts its iteration at one of 8 slots, d = 1/8 (measured on the r3 seed). Every kind of overlap (two globs, glob and exact entry, the same entry twice, three globs, catch-all) has pairs with R = 320: (7/8)^322 < 2^-61 per pair in the worst case above; pairs with R = 4 (64 thorough) only add to that",
 		"a tenant whose configured size cannot be provided (more than a zone has, fewer nodes than RF) must consistently get an error",
 		"RF <= 3: larger RF multiplies the cost of every sub-ring",
 		"family (2) builds the shuffle-sharded ring with newKetamaHashring(endpoints, 1..3, rf) + newShuffleShardHashring as newHashring does with 1000 sections per node; the tenant's sub-ring is still built by the real getTenantShard")
 	k := &checker{r: r, gapSeen: map[string]struct{}{}, gapTotal: map[string]int{}}
+	// diagnostic only (cost of one family): VERIF_C21_FAMILIES=3 or 13 ...; such a run is marked as capped
+	fams := os.Getenv("VERIF_C21_FAMILIES")
+	if fams != "" {
+		r.Cap("VERIF_C21_FAMILIES=" + fams + ": only these families were enumerated")
+	}
+	on := func(f string) bool { return fams == "" || strings.Contains(fams, f) }
 	all := func(yield func(Case) bool) {
-		for c := range genSmall(minN, sMaxN, sMaxRF, spns, nTen, allZAD) {
+		// The newest and smallest family first, then the production ring, the small base rings last: when a loaded
+		// machine makes the deadline cut the tail, it cuts the family whose interesting cases are spread most evenly.
+		for c := range genOverlap(oLayouts, oMaxRF, oCaches, oReps, oDeep, oAllPairs, r.Thorough()) {
+			if !on("3") {
+				break
+			}
 			if !yield(c) {
 				return
 			}
 		}
 		for c := range gen(minN, maxN, maxRF, caches) {
+			if !on("1") {
+				break
+			}
+			if !yield(c) {
+				return
+			}
+		}
+		for c := range genSmall(minN, sMaxN, sMaxRF, spns, nTen, allZAD) {
+			if !on("2") {
+				break
+			}
 			if !yield(c) {
 				return
 			}
